@@ -384,8 +384,8 @@ RejectAbsorbing == [][d.st = "Reject" => d'.st = "Reject"]_vars
 
 \* the structural as-implemented deviations change nothing for a line the documented grammar accepts
 \* without ambiguity: they only concern invalid input
-Out(a) == [kind |-> IF a.st = "Accept" THEN "Accept" ELSE "Reject", mst |-> a.mst, tags |-> a.tags, fields |-> a.fields,
-           ts |-> a.ts, tsvia |-> a.tsvia]
+Out(a) == IF a.st = "Accept" THEN [kind |-> "Accept", mst |-> a.mst, tags |-> a.tags, fields |-> a.fields, ts |-> a.ts, tsvia |-> a.tsvia]
+          ELSE [kind |-> "Reject"]
 StructDevs == {"empty_tag_skipped", "tagval_equals_literal", "fsuffix_unvalidated", "quote_scan"}
 DevOnlyOnInvalid ==
   (done /\ d.st = "Accept" /\ d.amb = {}) =>
